@@ -294,9 +294,13 @@ func (c *Collection) PullID(ctx context.Context, id string, opts ...ReadOption) 
 	send := make(chan *ValueChange)
 	// subscribe before returning, as Pull does: a removal of the item right after
 	// PullID returns must reach (and end) this subscription
+	// the underlying subscription ends with this one, also when that is because the item was removed:
+	// left behind, it would (with backpressure) stall every later write until the caller cancels ctx
+	ctx, stop := context.WithCancel(ctx)
 	changes := c.Pull(ctx, opts...)
 	go func() {
 		defer close(send)
+		defer stop()
 		for change := range changes {
 			if change.Id != id {
 				continue
